@@ -300,8 +300,10 @@ ASSIGN_OPS = {"=", "+=", "-=", "*=", "/=", "%=", "|=", "&=", "^=", "<<=", ">>="}
 
 
 class P:
-    def __init__(self, toks):
+    def __init__(self, toks, ext=False):
         self.t, self.i, self.nostruct = toks, 0, 0
+        self.ext = ext            # extended syntax of the `analyze_iterative` fragment (stage 4c); off for the stage-4a functions
+        self.dropped = []         # `#[cfg(weechess_verif)]` items dropped (ext only)
 
     def peek(self, o=0):
         return self.t[self.i + o].s if self.i + o < len(self.t) else None
@@ -324,6 +326,15 @@ class P:
         self.i += 1
         return t
 
+    def cfg_verif(self):
+        """exactly `#[cfg(weechess_verif)]` (instrumentation of the verification build: dropped, see TRUSTED PART 3)"""
+        want = ["#", "[", "cfg", "(", "weechess_verif", ")", "]"]
+        got = [self.peek(o) for o in range(len(want))]
+        if got != want:
+            self.err("an attribute other than `#[cfg(weechess_verif)]`")
+        for _ in want:
+            self.eat()
+
     # ---- types
     def ty(self):
         s = self.peek()
@@ -335,6 +346,9 @@ class P:
                 self.eat()
                 return ("refmut", self.ty())
             return ("ref", self.ty())
+        if self.ext and s == "_":
+            self.eat()
+            return "_"
         if self.tok().k != "id":
             self.err(f"type expected, found `{s}`")
         segs = [self.eat().s]
@@ -438,7 +452,54 @@ class P:
             s = self.peek()
             l2 = self.line()
             if s == "#":
-                self.err("attribute on a statement is outside the supported subset")
+                if not self.ext:
+                    self.err("attribute on a statement is outside the supported subset")
+                self.cfg_verif()
+                st = self.i
+                if self.peek() != "let":
+                    self.err("`#[cfg(weechess_verif)]` on something other than a `let` statement")
+                while self.peek() != ";":
+                    if self.peek() in ("{", "}"):
+                        self.err("`#[cfg(weechess_verif)]` statement with a block")
+                    self.eat()
+                self.eat(";")
+                self.dropped.append(" ".join(x.s for x in self.t[st:self.i]))
+                continue
+            if self.ext and s == "struct":
+                self.eat()
+                name = self.eat().s
+                self.eat("{")
+                fields = []
+                while self.peek() != "}":
+                    if self.peek() == "#":
+                        self.cfg_verif()
+                        fn = self.eat().s
+                        self.eat(":")
+                        self.ty()
+                        self.dropped.append(f"field {name}.{fn}")
+                    else:
+                        fn = self.eat().s
+                        self.eat(":")
+                        fields.append((fn, self.ty()))
+                    if self.peek() == ",":
+                        self.eat()
+                self.eat("}")
+                stmts.append(N("structdef", l2, name=name, fields=fields))
+                continue
+            if self.ext and s == "break":
+                self.eat()
+                self.eat(";")
+                stmts.append(N("exprstmt", l2, e=N("break", l2)))
+                continue
+            if self.ext and s == "debug_assert" and self.peek(1) == "!":
+                self.eat()
+                self.eat("!")
+                a = self.args()
+                self.eat(";")
+                if len(a) != 1:
+                    self.err("`debug_assert!` with a message")
+                stmts.append(N("exprstmt", l2, e=N("debug_assert", l2, e=a[0])))
+                continue
             if s == "let":
                 self.eat()
                 if self.peek() == "mut":
@@ -465,7 +526,10 @@ class P:
                 self.err(f"`{s}` is outside the supported subset")
             if self.tok().k == "id" and self.peek(1) == "!" and self.peek(2) in ("(", "[", "{") and s not in ("if", "match", "return", "for"):
                 self.err(f"macro `{s}!` is outside the supported subset")
-            e = self.expr()
+            # Rust: an expression statement that starts with `if` / `match` / `for` ends with its block
+            e = self.primary() if s in ("if", "match", "for") else self.expr()
+            if e.k in ("if", "iflet", "match", "for") and self.peek() in (".", "?", "as") + tuple(o for lv in BINPREC for o in lv if o not in ("*", "-", "&", "|", "||", "&&", "<")):
+                self.err("an operator applied to a statement-position `if` / `match` is outside the supported subset")
             if self.peek() in ASSIGN_OPS:
                 op = self.eat().s
                 rhs = self.expr()
@@ -565,6 +629,12 @@ class P:
                 elif t.k == "id":
                     if self.peek() == "(":
                         e = N("mcall", ln, recv=e, name=t.s, args=self.args())
+                    elif self.peek() == "::" and self.ext:
+                        self.eat()
+                        self.eat("<")
+                        g = self.ty()
+                        self.eat(">")
+                        e = N("mcall", ln, recv=e, name=t.s, args=self.args(), turbofish=g)
                     elif self.peek() == "::":
                         self.err("turbofish")
                     else:
@@ -606,6 +676,13 @@ class P:
             saved, self.nostruct = self.nostruct, 0
             e = self.expr()
             self.nostruct = saved
+            if self.peek() == "," and self.ext:
+                es = [e]
+                while self.peek() == ",":
+                    self.eat()
+                    es.append(self.expr())
+                self.eat(")")
+                return N("tuple", ln, es=es)
             if self.peek() == ",":
                 self.err("tuple expressions are outside the supported subset")
             self.eat(")")
@@ -681,6 +758,21 @@ class P:
             ps = []
             if t.s == "|":
                 while self.peek() != "|":
+                    if self.ext and self.peek() == "(":
+                        self.eat()
+                        tp = []
+                        while self.peek() != ")":
+                            q = self.eat()
+                            if q.k != "id":
+                                self.err("closure tuple pattern")
+                            tp.append(q.s)
+                            if self.peek() == ",":
+                                self.eat()
+                        self.eat(")")
+                        ps.append(tuple(tp))
+                        if self.peek() == ",":
+                            self.eat()
+                        continue
                     p = self.eat()
                     if p.k != "id" or self.peek() == ":":
                         self.err("closure parameters must be plain identifiers")
@@ -690,8 +782,23 @@ class P:
                 self.eat("|")
             body = self.block() if self.peek() == "{" else self.expr()
             return N("closure", ln, params=ps, body=body)
+        if t.s == "{" and self.ext:
+            return N("blockexpr", ln, b=self.block())
         if t.s == "{":
             self.err("block expressions are outside the supported subset")
+        if self.ext and t.k == "id" and t.s == "format" and self.peek(1) == "!":
+            self.eat()
+            self.eat("!")
+            self.eat("(")
+            fmt = self.eat()
+            if fmt.k != "str":
+                self.err("`format!` without a literal format string")
+            a = []
+            while self.peek() == ",":
+                self.eat()
+                a.append(self.expr())
+            self.eat(")")
+            return N("format", ln, fmt=fmt.s, args=a)
         if t.s in ("true", "false"):
             self.eat()
             return N("boollit", ln, v=(t.s == "true"))
@@ -708,6 +815,15 @@ class P:
                 self.eat()
                 fields = []
                 while self.peek() != "}":
+                    if self.ext and self.peek() == "#":
+                        self.cfg_verif()
+                        f = self.eat()
+                        self.eat(":")
+                        self.expr()
+                        self.dropped.append(f"field initialiser {segs[-1]}.{f.s}")
+                        if self.peek() == ",":
+                            self.eat()
+                        continue
                     f = self.eat()
                     if f.k != "id":
                         self.err("struct literal field")
@@ -724,7 +840,7 @@ class P:
                     elif self.peek() != "}":
                         self.err("struct literal (`..base` is outside the supported subset)")
                 self.eat("}")
-                return N("structlit", ln, name=segs[-1], fields=fields)
+                return N("structlit", ln, name=segs[-1], fields=fields, segs=segs)
             return N("path", ln, segs=segs)
         self.err(f"unexpected token `{t.s}`")
 
@@ -1763,6 +1879,15 @@ class Em:
             out.append(self.emit_fn(self.fns[name]))
             out.append("")
             self.done.append(name)
+        it = IterEm(self)
+        it_text = it.run()
+        out.append(PRELUDE_ITER.strip("\n"))
+        out.append("")
+        out.append("/-! ## Translated items, stage 4c -/")
+        out.append("")
+        out.append(it_text)
+        out.append("")
+        self.notes.extend(it.notes)
         out.append("/-! ## Side conditions checked by the translator")
         out.append(f"* cells of the search monad: {', '.join(f'{k}: {m} {t}' for k, (m, t) in CELLS.items())}; every recursive call passes them unchanged")
         out.append(f"* functions of `impl Searcher` not translated: {', '.join(f'{k} ({v})' for k, v in NOT_TRANSLATED.items())}")
@@ -1771,6 +1896,919 @@ class Em:
         out.append("-/")
         out.append("end Wee.GenFns")
         return "\n".join(out) + "\n"
+
+
+# ====================================================================================================
+# STAGE 4c -- the iterative-deepening loop of `Searcher::analyze_iterative` (a FRAGMENT: the statement `for depth in 0..max_depth { .. }`)
+# ====================================================================================================
+# TRUSTED PART 3 (additions for this fragment)
+#  fragment                             only the `for` statement of `analyze_iterative` is translated; the variables it uses that are declared
+#                                       before it are PARAMETERS of the generated functions (table ITER_ENV, each checked against the text in
+#                                       front of the loop).  `hasher`, `state_history`, `game_state`, `evaluator`, `token`, `max_thread_count`,
+#                                       `game_state_hash`, `max_depth` are read only; `nodes_searched`, `best_eval`, `best_mv` are the loop state.
+#  cells of the loop (monad `IM`)       `rng` (the loop's own generator), `transpositions` (shared table), the polls of `token`, and the CALLS OF
+#                                       THE CALLBACK `f` as a list of `StatusEvent`s in call order.  A panic / exhausted fuel is the monad's error;
+#                                       `Err(SearchInterrupt)` of a worker is a VALUE (`SResult.Err`) because the loop matches on it.
+#  rayon                                `v.into_par_iter().map(closure).collect::<Result<Vec<_>, _>>()` is read as ONE ADMISSIBLE SCHEDULE: the
+#                                       closures run one after the other in index order, each to its end, and no closure starts after the first
+#                                       `Err` (`SPrim.par_map_collect_result`).  This is the model's `runWorkers`.  For one worker it is the real
+#                                       execution.  `rayon::max_num_threads()` is a parameter (`max_num_threads`).
+#  #[cfg(weechess_verif)]               fields / field initialisers / `let` statements under exactly this attribute are the instrumentation of the
+#                                       verification build (`verif::enter_worker`: a thread-local tag for the log) and are DROPPED (listed in the notes).
+#  a worker's call of analyze_recursive `IM.call_worker`: the generated `Searcher.analyze_recursive` runs on cells made of the worker's own `rng` and
+#                                       `nodes_searched` and the loop's table and poll counter; the table and the counter are written back (also
+#                                       when the run stops), the worker's `rng`, buffer and node count are returned.  Fuel: `search_depth + 1`.
+#  for depth in lo..hi                  `SPrim.for_range_early` (structural recursion on `hi - lo`); `break` = `Early.ret state`, `continue` / end
+#                                       of body = `Early.cont state`; after the loop both yield the state.
+#  (lo..hi).map(closure).collect()      `SPrim.range_map_collect`: the closure is called for `lo, lo+1, ..` in this order (it draws from `rng`).
+#  rng.gen() as argument of seed_from_u64   `IM.rng_gen_u64` = the model's `Rng.nextU64`; `ChaCha8Rng::seed_from_u64` = the model's `Rng.seedFromU64`.
+#  it.map(|(_, n)| n).sum::<usize>()    `TTPrim.usize_sum` (checked);  `*it.map(|(e, _)| e).max().unwrap()` = `SPrim.iter_max` (`none` = the `unwrap` panic).
+#  T.iter_moves(..).map(|r| r.0).collect()   stage 3c's reading: `iter_collect TranspositionTableMoveIterator.next (depth + 2) ..`, first components.
+#  debug_assert!({ .. })                the block is run in `Panics`; `.expect(..)` = `unwrap` (the message is dropped); a `false` value panics.
+#  f(StatusEvent::X { .. })             `IM.emit (StatusEvent.X ..)`, the fields evaluated in source order.
+#  x.saturating_sub(y), usize::min      `SPrim.usize_saturating_sub`, `SPrim.usize_min`;  `e as u32` = `UInt64.toUInt32` (truncation).
+ITER_FN = "analyze_iterative"
+ITER_ENV = {"game_state": "State", "evaluator": "Evaluator", "token": "CancellationToken", "hasher": "ZobristHasher",
+            "state_history": "StateHistory", "game_state_hash": "usize", "max_thread_count": ("Option", "usize"), "max_depth": "usize",
+            "nodes_searched": "usize", "best_eval": "Evaluation", "best_mv": ("Option", "Move")}
+ITER_CELLS = ("rng", "transpositions", "f")
+# what the text in front of the loop must say about these variables
+ITER_DECLS = [
+    (r"fn analyze_iterative<F>\(\s*game_state: State,\s*evaluator: &eval::Evaluator,\s*rng: RandomNumberGenerator,\s*max_depth: Option<usize>,\s*"
+     r"token: CancellationToken,\s*previous_artifact: Option<SearchArtifact>,\s*max_thread_count: Option<usize>,\s*f: &mut F,\s*\) -> SearchArtifact\s*"
+     r"where\s*F: FnMut\(StatusEvent\),", "signature of analyze_iterative"),
+    (r"type RandomNumberGenerator = ChaCha8Rng;", "RandomNumberGenerator = ChaCha8Rng"),
+    (r"let max_depth = max_depth\.unwrap_or\(usize::MAX\);\s*let mut rng = rng;", "max_depth: usize, rng: the loop's generator"),
+    (r"let \(hasher, transpositions, mut state_history\) = previous_artifact", "hasher, transpositions, state_history"),
+    (r"let game_state_hash = hasher\.hash\(&game_state\);\s*let mut nodes_searched = 0;\s*let mut best_eval = eval::Evaluation::NEG_INF;\s*"
+     r"let mut best_mv = None;", "game_state_hash, nodes_searched, best_eval, best_mv"),
+    (r"pub enum StatusEvent \{\s*BestMove \{\s*line: Vec<Move>,\s*evaluation: eval::Evaluation,\s*\},\s*Progress \{\s*depth: u32,\s*"
+     r"nodes_searched: usize,\s*transposition_saturation: f32,\s*\},\s*Warning \{", "enum StatusEvent"),
+    (r"fn saturation\(&self\) -> f32 \{", "TranspositionTableAccess::saturation"),
+    (r"fn iter_moves<'a>\(\s*&'a self,\s*hasher: &'a ZobristHasher,\s*state: &State,\s*max_depth: usize,\s*\) -> impl Iterator<Item = MoveResult> \+ 'a \{",
+     "TranspositionTableAccess::iter_moves"),
+]
+ITER_EXTERN_HEADS = {
+    "MoveFns.lean": ["def Evaluation.mate_in_ply (ply : UInt64) : Panics Evaluation := do", "def Evaluation.POS_INF : Evaluation :=",
+                     "@[reducible, inline] def unwrap {α : Type} (x : Option α) : Panics α := x"],
+    "CoreFns.lean": ["def State.by_performing_move (state : State) (mv : Move) : Panics (Option State) := do",
+                     "def iter_collect {σ α : Type} (next : σ → Panics (Option α × σ)) : Nat → σ → Panics (List α)"],
+    "TTFns.lean": ["def TranspositionTableAccess.saturation (self : TranspositionTableAccess) : Panics Rat := do",
+                   "def TranspositionTableAccess.iter_moves (self : TranspositionTableAccess) (hasher : ZobristHasher) (state : State) (max_depth : UInt64) : TranspositionTableMoveIterator :=",
+                   "def TranspositionTableMoveIterator.next (self : TranspositionTableMoveIterator) : Panics ((Option (Move × State)) × TranspositionTableMoveIterator) := do",
+                   "def TTPrim.usize_sum (xs : List UInt64) : Panics UInt64 := xs.foldlM (fun acc x => UInt64.checked_add acc x) 0",
+                   "def TTPrim.assert (c : Bool) : Panics Unit := if c then some () else none"],
+}
+STATUS_EVENT = {"BestMove": [("evaluation", "Evaluation"), ("line", ("Vec", "Move"))],
+                "Progress": [("depth", "u32"), ("nodes_searched", "usize"), ("transposition_saturation", "f32")]}
+
+PRELUDE_ITER = r"""
+/-! ## Prelude of stage 4c: the iterative-deepening loop of `analyze_iterative` (fixed vocabulary; TRUSTED PART 3 of the tool) -/
+
+/-- `Result<T, SearchInterrupt>` as a VALUE (the loop matches on `Ok(..)` / `Err(SearchInterrupt)`) -/
+inductive SResult (α : Type) where
+  | Ok (v : α)
+  | Err
+def SResult.map {α β : Type} (f : α → β) : SResult α → SResult β
+  | .Ok v => .Ok (f v)
+  | .Err => .Err
+
+/-- `StatusEvent` as far as the loop emits it: the calls of the callback `f`, in call order -/
+inductive StatusEvent where
+  | BestMove (evaluation : Evaluation) (line : Array Move)
+  | Progress (depth : UInt32) (nodes_searched : UInt64) (transposition_saturation : f32)
+
+/-- the objects the loop works on: its own generator, the shared table, the polls of the token so far, the calls of `f` -/
+structure IterCells where
+  rng : Wee.Rng.ChaCha8
+  transpositions : TranspositionTableAccess
+  polls : Nat
+  events : List StatusEvent
+
+/-- the monad of the loop: the cells survive an error -/
+def IM (α : Type) : Type := IterCells → Except SearchStop α × IterCells
+instance : Monad IM where
+  pure a := fun c => (.ok a, c)
+  bind x f := fun c => match x c with
+    | (.ok a, c') => f a c'
+    | (.error e, c') => (.error e, c')
+def IM.liftP {α : Type} (p : Panics α) : IM α := fun c =>
+  match p with
+  | none => (.error .panic, c)
+  | some a => (.ok a, c)
+def IM.read_transpositions : IM TranspositionTableAccess := fun c => (.ok c.transpositions, c)
+/-- `f(event)` -/
+def IM.emit (e : StatusEvent) : IM Unit := fun c => (.ok (), { c with events := c.events ++ [e] })
+/-- `token.is_cancelled()` through the verification hook: the poll is counted (as `SPrim.is_cancelled`) -/
+def IM.is_cancelled (token : CancellationToken) : IM Bool := fun c =>
+  (.ok (match token.cancel_at with | some k => decide (c.polls ≥ k) | none => false), { c with polls := c.polls + 1 })
+/-- `rng.gen()` at type `u64`: the model's `Rng.nextU64` -/
+def IM.rng_gen_u64 : IM UInt64 := fun c => (.ok (Wee.Rng.nextU64 c.rng).1, { c with rng := (Wee.Rng.nextU64 c.rng).2 })
+/-- `ChaCha8Rng::seed_from_u64` -/
+def SPrim.seed_from_u64 (s : UInt64) : Wee.Rng.ChaCha8 := Wee.Rng.seedFromU64 s
+def SPrim.usize_saturating_sub (a b : UInt64) : UInt64 := if b ≤ a then a - b else 0
+def SPrim.usize_min (a b : UInt64) : UInt64 := if a ≤ b then a else b
+/-- `iter.max()` on `Evaluation`s: `none` for the empty iterator -/
+def SPrim.iter_max : List Evaluation → Option Evaluation
+  | [] => none
+  | e :: es => some (es.foldl Evaluation.ord_max e)
+/-- `(lo..hi).map(f).collect()`: `f` is called for `lo, lo+1, ..` in this order -/
+def SPrim.range_mapM {m : Type → Type} [Monad m] {β : Type} (f : UInt64 → m β) : Nat → UInt64 → m (List β)
+  | 0, _ => pure []
+  | n + 1, i => do
+    let b ← f i
+    let bs ← SPrim.range_mapM f n (i + 1)
+    pure (b :: bs)
+def SPrim.range_map_collect {m : Type → Type} [Monad m] {β : Type} (lo hi : UInt64) (f : UInt64 → m β) : m (Array β) := do
+  let l ← SPrim.range_mapM f (hi.toNat - lo.toNat) lo
+  pure l.toArray
+/-- TRUSTED READING of `v.into_par_iter().map(f).collect::<Result<Vec<_>, _>>()`: ONE admissible schedule — the closures run one
+after the other in index order, and no closure runs after the first `Err` -/
+def SPrim.par_map_collect_result {α β : Type} (f : α → IM (SResult β)) : List α → IM (SResult (List β))
+  | [] => pure (.Ok [])
+  | x :: xs => do
+    match ← f x with
+    | .Err => pure .Err
+    | .Ok b => do
+      match ← SPrim.par_map_collect_result f xs with
+      | .Err => pure .Err
+      | .Ok bs => pure (.Ok (b :: bs))
+/-- a worker's call of `analyze_recursive`: its own `rng`, `move_buffer` and `nodes_searched` (returned), the loop's table and poll
+counter (written back, also when the run stops); `Err(SearchInterrupt)` becomes a value -/
+def IM.call_worker (run : SM (Evaluation × Array Move)) (rng : Wee.Rng.ChaCha8) (move_buffer : Array Move) (nodes_searched : UInt64) :
+    IM (SResult Evaluation × Wee.Rng.ChaCha8 × Array Move × UInt64) := fun ic =>
+  match run { nodes_searched := nodes_searched, rng := rng, transpositions := ic.transpositions, polls := ic.polls } with
+  | (.ok r, c) => (.ok (.Ok r.1, c.rng, r.2, c.nodes_searched), { ic with transpositions := c.transpositions, polls := c.polls })
+  | (.error .interrupt, c) => (.ok (.Err, c.rng, move_buffer, c.nodes_searched), { ic with transpositions := c.transpositions, polls := c.polls })
+  | (.error e, c) => (.error e, { ic with transpositions := c.transpositions, polls := c.polls })
+/-- fuel of a worker's call: `max_depth - current_depth` drops by one per call (the extension is added to both) -/
+def SPrim.analyze_fuel (search_depth : UInt64) : Nat := search_depth.toNat + 1
+/-- `for i in lo..hi { body }` with `break` / `continue`: structural recursion on the number of iterations left -/
+def SPrim.for_range_early {m : Type → Type} [Monad m] {ρ σ : Type} (f : σ → UInt64 → m (Early ρ σ)) : Nat → UInt64 → σ → m (Early ρ σ)
+  | 0, _, s => pure (Early.cont s)
+  | n + 1, i, s => do
+    match ← f s i with
+    | Early.ret r => pure (Early.ret r)
+    | Early.cont s' => SPrim.for_range_early f n (i + 1) s'
+"""
+
+
+class IterEm:
+    """translator of the `for` statement of `analyze_iterative` (shape-directed; everything it does not know fails closed)"""
+
+    def __init__(self, em):
+        self.em = em
+        self.ntmp = 0
+        self.notes = []
+        self.structs = {}
+
+    def err(self, e, msg):
+        fail(f"{SEARCHER}:{e.line}: in fn Searcher::{ITER_FN} (loop fragment): {msg}")
+
+    def fresh(self):
+        self.ntmp += 1
+        return f"tmp{self.ntmp}"
+
+    # ---- locating the fragment ------------------------------------------------------------------
+    def locate(self):
+        toks = self.em.load(SEARCHER)
+        text = re.sub(r"//[^\n]*", "", self.em.src[SEARCHER])
+        for pat, what in ITER_DECLS:
+            if len(re.findall(pat, text)) != 1:
+                fail(f"{SEARCHER}: `{what}` not found exactly once (the loop fragment of analyze_iterative rests on it)")
+        m = re.findall(r"const DEFAULT_MAX_THREAD_COUNT: usize = (\d+);", text)
+        if len(m) != 1:
+            fail(f"{SEARCHER}: const DEFAULT_MAX_THREAD_COUNT not found exactly once")
+        self.consts = {"DEFAULT_MAX_THREAD_COUNT": (f"({m[0]} : UInt64)", "usize")}
+        for fname, heads in ITER_EXTERN_HEADS.items():
+            with open(os.path.join(GEN, fname)) as f:
+                gtext = f.read()
+            for h in heads:
+                if gtext.count("\n" + h) != 1:
+                    fail(f"lean/Wee/Gen/{fname}: definition head `{h}` not found exactly once (the generated loop calls it by name)")
+        lo, hi = R.find_container(toks, 0, len(toks), ["impl", "Searcher"], SEARCHER)
+        i = lo
+        while i < hi and not (toks[i].s == "fn" and toks[i + 1].s == ITER_FN):
+            i += 1
+        if i >= hi:
+            fail(f"{SEARCHER}: fn {ITER_FN} not found")
+        k = i
+        while toks[k].s != "(":
+            k += 1
+        b = R.match_close(toks, k, "(", ")")
+        while toks[b].s != "{":
+            b += 1
+        bc = R.match_close(toks, b, "{", "}")
+        body = toks[b + 1:bc]
+        d, fors = 0, []
+        for n, t in enumerate(body):
+            if t.s == "{":
+                d += 1
+            elif t.s == "}":
+                d -= 1
+            elif t.s == "for" and d == 0:
+                fors.append(n)
+        if len(fors) != 1:
+            fail(f"{SEARCHER}: fn {ITER_FN}: expected exactly one top-level `for` statement, found {len(fors)}")
+        st = fors[0]
+        m2 = st
+        while body[m2].s != "{":
+            m2 += 1
+        en = R.match_close(body, m2, "{", "}")
+        self.line = body[st].line
+        # what follows the loop must not read the loop state (it is returned to nobody): only `transpositions` is used afterwards
+        after = " ".join(t.s for t in body[en + 1:])
+        for v in ("nodes_searched", "best_eval", "best_mv"):
+            if re.search(rf"\b{v}\b", after):
+                fail(f"{SEARCHER}: fn {ITER_FN}: `{v}` is used after the loop (the fragment returns it, the rest is not translated)")
+        p = P([x for x in body[st:en + 1] if x.k != "life"], ext=True)
+        f = p.primary()
+        if p.i != len(p.t) or f.k != "for":
+            fail(f"{SEARCHER}: fn {ITER_FN}: cannot isolate the `for` statement")
+        for dmsg in p.dropped:
+            self.notes.append(f"dropped (`#[cfg(weechess_verif)]` instrumentation): `{dmsg}`")
+        return f
+
+    # ---- types ------------------------------------------------------------------------------------
+    def lt(self, t, atom=False):
+        if isinstance(t, tuple):
+            if t[0] == "SResult":
+                s2 = f"SResult {self.lt(t[1], True)}"
+            elif t[0] == "List":
+                s2 = f"List {self.lt(t[1], True)}"
+            elif t[0] == "tuple":
+                return "(" + " × ".join(self.lt(x, True) for x in t[1]) + ")"
+            elif t[0] == "Vec":
+                s2 = f"Array {self.lt(t[1], True)}"
+            elif t[0] == "Option":
+                s2 = f"Option {self.lt(t[1], True)}"
+            else:
+                return lty(t, atom)
+            return f"({s2})" if atom else s2
+        if t == "u32":
+            return "UInt32"
+        if t in self.structs:
+            return f"Searcher.{ITER_FN}.{t}"
+        return lty(t, atom)
+
+    # ---- expressions ------------------------------------------------------------------------------
+    def has_effect(self, e):
+        return any(x.k == "mcall" and x.name in ("is_cancelled", "gen") for x in walk(e))
+
+    def xe(self, e, env, out, ind):
+        k = e.k
+
+        def bindP(term, ty):
+            t = self.fresh()
+            out.append(f"{ind}let {t} : {self.lt(ty)} ← IM.liftP ({term})")
+            return t, ty
+
+        def bindM(term, ty):
+            t = self.fresh()
+            out.append(f"{ind}let {t} : {self.lt(ty)} ← {term}")
+            return t, ty
+
+        if k == "paren":
+            a, t = self.xe(e.e, env, out, ind)
+            return a, t
+        if k == "lit":
+            if e.suf not in (None, "usize"):
+                self.err(e, "integer literal with a suffix other than usize")
+            return f"({e.v} : UInt64)", "usize"
+        if k == "boollit":
+            return ("true" if e.v else "false"), "bool"
+        if k == "path":
+            if len(e.segs) == 1:
+                x = e.segs[0]
+                if x in env:
+                    return mangle(x), env[x]
+                if x == "None":
+                    return "none", ("Option", "?")
+                if x in self.consts:
+                    return self.consts[x]
+                self.err(e, f"unknown identifier `{x}`")
+            if e.segs in (["eval", "Evaluation", "POS_INF"], ["Evaluation", "POS_INF"]):
+                return "Evaluation.POS_INF", "Evaluation"
+            self.err(e, f"path `{'::'.join(e.segs)}` is outside the supported subset")
+        if k == "un":
+            if e.op in ("&", "&mut", "*"):
+                return self.xe(e.e, env, out, ind)
+            a, t = self.xe(e.e, env, out, ind)
+            if e.op == "!" and t == "bool":
+                return f"(!{par(a)})", "bool"
+            if e.op == "-" and t == "Evaluation":
+                return bindP(f"Evaluation.neg {par(a)}", "Evaluation")
+            self.err(e, f"unary `{e.op}` on {show(t)}")
+        if k == "cast":
+            a, t = self.xe(e.e, env, out, ind)
+            if t == "usize" and e.to == "u32":
+                return f"(UInt64.toUInt32 {par(a)})", "u32"
+            self.err(e, f"cast {show(t)} as {show(e.to)}")
+        if k == "bin":
+            if e.op == "&&":
+                a, ta = self.xe(e.l, env, out, ind)
+                if ta != "bool":
+                    self.err(e, "`&&` on non-bool")
+                if self.has_effect(e.r):
+                    o2 = []
+                    b, tb = self.xe(e.r, env, o2, ind + "  ")
+                    t = self.fresh()
+                    out.append(f"{ind}let {t} : Bool ← (")
+                    out.append(f"{ind}  if {a} then do")
+                    out.extend("  " + x for x in o2)
+                    out.append(f"{ind}    pure {par(b)}")
+                    out.append(f"{ind}  else pure false)")
+                    return t, "bool"
+                b, tb = self.xe(e.r, env, out, ind)
+                return f"({a} && {b})", "bool"
+            a, ta = self.xe(e.l, env, out, ind)
+            b, tb = self.xe(e.r, env, out, ind)
+            if ta != tb:
+                self.err(e, f"`{e.op}` on {show(ta)} and {show(tb)}")
+            if e.op in ("<", ">", "<=", ">=") and ta in ("usize", "Evaluation"):
+                return f"decide ({par(a)} {e.op} {par(b)})", "bool"
+            if e.op == "==" and ta == "usize":
+                return f"({par(a)} == {par(b)})", "bool"
+            if e.op == "%" and ta == "usize" and e.r.k == "lit" and e.r.v != 0:
+                return f"({par(a)} % {par(b)})", "usize"
+            if e.op == "+" and ta == "usize":
+                return bindP(f"UInt64.checked_add {par(a)} {par(b)}", "usize")
+            self.err(e, f"operator `{e.op}` on {show(ta)}")
+        if k == "field":
+            a, t = self.xe(e.e, env, out, ind)
+            if t in self.structs and e.name in dict(self.structs[t]):
+                return f"{par(a)}.f_{e.name}", dict(self.structs[t])[e.name]
+            if t == "TranspositionEntry" and e.name in dict(STRUCT_FIELDS[t]):
+                return f"{par(a)}.f_{e.name}", dict(STRUCT_FIELDS[t])[e.name]
+            if isinstance(t, tuple) and t[0] == "tuple" and e.name.isdigit() and int(e.name) < len(t[1]):
+                return tuple_proj(par(a), int(e.name), len(t[1])), t[1][int(e.name)]
+            self.err(e, f"field `.{e.name}` of {show(t)}")
+        if k == "tuple":
+            parts = [self.xe(x, env, out, ind) for x in e.es]
+            return "(" + ", ".join(a for a, _ in parts) + ")", ("tuple", tuple(t for _, t in parts))
+        if k == "if":
+            c, tc = self.xe(e.c, env, out, ind)
+            if tc != "bool" or e.el is None:
+                self.err(e, "`if` expression without `else` / with a non-bool condition")
+            vals = []
+            for b in (e.th, e.el):
+                if b.stmts or b.tail is None:
+                    self.err(e, "`if` expression whose branches are not plain expressions")
+                o2 = []
+                vals.append(self.xe(b.tail, env, o2, ind))
+                if o2:
+                    self.err(e, "`if` expression with an effect / possible panic in a branch")
+            (a, ta), (b, tb) = vals
+            if ta != tb and not (isinstance(ta, tuple) and isinstance(tb, tuple) and ta[0] == tb[0] == "Option" and "?" in (ta[1], tb[1])):
+                self.err(e, f"`if` branches of types {show(ta)} and {show(tb)}")
+            return f"(if {c} then {a} else {b})", (tb if isinstance(ta, tuple) and ta[1] == "?" else ta)
+        if k == "blockexpr":
+            env2 = dict(env)
+            for st in e.b.stmts:
+                if st.k != "let" or st.pat[0] != "bind" or st.els is not None:
+                    self.err(st, "statement of a block expression other than a plain `let`")
+                if st.pat[1] in env:
+                    self.err(st, f"`let {st.pat[1]}` in a block expression shadows an outer variable")
+                v, t = self.xe(st.init, env2, out, ind)
+                out.append(f"{ind}let {mangle(st.pat[1])} : {self.lt(t)} := {v}")
+                env2[st.pat[1]] = t
+            if e.b.tail is None:
+                self.err(e, "block expression without a value")
+            return self.xe(e.b.tail, env2, out, ind)
+        if k == "structlit":
+            if e.name not in self.structs:
+                self.err(e, f"struct literal `{e.name}`")
+            decl = dict(self.structs[e.name])
+            if sorted(f for f, _ in e.fields) != sorted(decl):
+                self.err(e, f"struct literal `{e.name}`: fields differ from the declaration")
+            parts = []
+            for f, v in e.fields:
+                a, t = self.xe(v, env, out, ind)
+                if t != decl[f] and not (isinstance(t, tuple) and t[0] == "Option" and isinstance(decl[f], tuple) and decl[f][0] == "Option"):
+                    self.err(v, f"field `{f}`: {show(t)} where {show(decl[f])} is expected")
+                parts.append(f"f_{f} := {a}")
+            return "{ " + ", ".join(parts) + " }", e.name
+        if k == "call":
+            fn = e.fn
+            if fn == ["ChaCha8Rng", "seed_from_u64"] and len(e.args) == 1:
+                a, t = self.xe(e.args[0], env, out, ind)
+                if t != "u64":
+                    self.err(e, "seed_from_u64 of a non-u64")
+                return f"(SPrim.seed_from_u64 {par(a)})", "ChaCha8Rng"
+            if fn == ["usize", "min"] and len(e.args) == 2:
+                (a, ta), (b, tb) = [self.xe(x, env, out, ind) for x in e.args]
+                if (ta, tb) != ("usize", "usize"):
+                    self.err(e, "usize::min on non-usize")
+                return f"(SPrim.usize_min {par(a)} {par(b)})", "usize"
+            if fn == ["rayon", "max_num_threads"] and not e.args:
+                return "max_num_threads", "usize"
+            if fn in (["eval", "Evaluation", "mate_in_ply"], ["Evaluation", "mate_in_ply"]) and len(e.args) == 1:
+                a, t = self.xe(e.args[0], env, out, ind)
+                if t != "usize":
+                    self.err(e, "mate_in_ply of a non-usize")
+                return bindP(f"Evaluation.mate_in_ply {par(a)}", "Evaluation")
+            self.err(e, f"call of `{'::'.join(fn)}` is outside the supported subset")
+        if k == "mcall":
+            return self.mcall(e, env, out, ind, bindP, bindM)
+        self.err(e, f"expression `{k}` is outside the supported subset")
+
+    def chain(self, e):
+        """method chain as a list [(name, args, node)], innermost first, and the receiver"""
+        ms = []
+        while e.k == "mcall":
+            ms.append((e.name, e.args, e))
+            e = e.recv
+        return e, ms[::-1]
+
+    def mcall(self, e, env, out, ind, bindP, bindM):
+        recv, ms = self.chain(e)
+        names = [m[0] for m in ms]
+        # evaluations.iter().map(|(_, n)| n).sum::<usize>()  /  evaluations.iter().map(|(e, _)| e).max().unwrap()
+        if names[:2] == ["iter", "map"] and names[2:] in (["sum"], ["max", "unwrap"]):
+            a, t = self.xe(recv, env, out, ind)
+            cl = ms[1][1][0] if len(ms[1][1]) == 1 else None
+            if not (isinstance(t, tuple) and t[0] == "Vec" and isinstance(t[1], tuple) and t[1][0] == "tuple" and len(t[1][1]) == 2) \
+                    or cl is None or cl.k != "closure" or len(cl.params) != 1 or not isinstance(cl.params[0], tuple) or len(cl.params[0]) != 2 \
+                    or cl.body.k != "path" or len(cl.body.segs) != 1 or any(a2 for _, a2, _ in [ms[0]] + ms[2:]):
+                self.err(e, "iterator chain outside the supported subset")
+            pr = cl.params[0]
+            if cl.body.segs[0] not in pr or pr[1 - pr.index(cl.body.segs[0])] != "_":
+                self.err(e, "closure of the iterator chain must project one component of the pair")
+            ix = pr.index(cl.body.segs[0])
+            comp = t[1][1][ix]
+            lst = f"((Array.toList {par(a)}).map (fun p => p.{ix + 1}))"
+            if names[2:] == ["sum"]:
+                if comp != "usize" or getattr(ms[2][2], "turbofish", None) != "usize":
+                    self.err(e, "`.sum::<usize>()` over non-usize")
+                return bindP(f"TTPrim.usize_sum {lst}", "usize")
+            if comp != "Evaluation":
+                self.err(e, "`.max()` over non-Evaluation")
+            return bindP(f"SPrim.iter_max {lst}", "Evaluation")
+        # transpositions.iter_moves(&hasher, &game_state, depth).map(|r| r.0).collect()
+        if names == ["iter_moves", "map", "collect"] and recv.k == "path" and recv.segs == ["transpositions"]:
+            args = [self.xe(x, env, out, ind) for x in ms[0][1]]
+            cl = ms[1][1][0] if len(ms[1][1]) == 1 else None
+            if [t for _, t in args] != ["ZobristHasher", "State", "usize"] or cl is None or cl.k != "closure" or cl.params != ["r"] \
+                    or cl.body.k != "field" or cl.body.name != "0" or cl.body.e.k != "path" or cl.body.e.segs != ["r"] or ms[2][1]:
+                self.err(e, "`iter_moves(..).map(|r| r.0).collect()` expected")
+            tt, _ = bindM("IM.read_transpositions", "TranspositionTableAccess")
+            d = args[2][0]
+            items, _ = bindP(f"iter_collect TranspositionTableMoveIterator.next ({par(d)}.toNat + 2) (TranspositionTableAccess.iter_moves {tt} {args[0][0]} {args[1][0]} {d})",
+                             ("List", "MoveResult"))
+            return f"(List.toArray ({items}.map (fun r => r.1)))", ("Vec", "Move")
+        if len(ms) == 2 and names == ["first", "copied"] and not ms[0][1] and not ms[1][1]:
+            a, t = self.xe(recv, env, out, ind)
+            if not (isinstance(t, tuple) and t[0] == "Vec"):
+                self.err(e, "`.first()` of a non-Vec")
+            return f"{par(a)}[0]?", ("Option", t[1])
+        if len(ms) != 1:
+            self.err(e, f"method chain `.{'.'.join(names)}` is outside the supported subset")
+        name, args, node = ms[0]
+        if recv.k == "path" and recv.segs == ["token"] and name == "is_cancelled" and not args:
+            return bindM("IM.is_cancelled token", "bool")
+        if recv.k == "path" and recv.segs == ["rng"] and name == "gen" and not args and "rng" not in env:
+            return bindM("IM.rng_gen_u64", "u64")
+        if recv.k == "path" and recv.segs == ["transpositions"] and name == "saturation" and not args:
+            tt, _ = bindM("IM.read_transpositions", "TranspositionTableAccess")
+            return bindP(f"TranspositionTableAccess.saturation {tt}", "f32")
+        if recv.k == "path" and recv.segs == ["transpositions"] and name == "find" and len(args) == 1:
+            h, th = self.xe(args[0], env, out, ind)
+            if th != "usize":
+                self.err(e, "find of a non-Hash")
+            tt, _ = bindM("IM.read_transpositions", "TranspositionTableAccess")
+            return bindP(f"TranspositionTableAccess.find {tt} {par(h)}", ("Option", "TranspositionEntry"))
+        a, t = self.xe(recv, env, out, ind)
+        if name == "saturating_sub" and t == "usize" and len(args) == 1:
+            b, tb = self.xe(args[0], env, out, ind)
+            if tb != "usize":
+                self.err(e, "saturating_sub of a non-usize")
+            return f"(SPrim.usize_saturating_sub {par(a)} {par(b)})", "usize"
+        if name == "clone" and not args and t == "State":
+            return a, t
+        if name == "is_empty" and not args and isinstance(t, tuple) and t[0] == "Vec":
+            return f"(Array.isEmpty {par(a)})", "bool"
+        if name == "map" and isinstance(t, tuple) and t[0] == "SResult" and len(args) == 1 and args[0].k == "closure" \
+                and len(args[0].params) == 1 and isinstance(args[0].params[0], str):
+            env2 = dict(env)
+            env2[args[0].params[0]] = t[1]
+            o2 = []
+            b, tb = self.xe(args[0].body, env2, o2, ind)
+            if o2:
+                self.err(e, "`Result::map` with an effect in the closure")
+            return f"(SResult.map (fun {mangle(args[0].params[0])} => {b}) {par(a)})", ("SResult", tb)
+        self.err(e, f"method `.{name}` on {show(t)} is outside the supported subset")
+
+    # ---- statements -------------------------------------------------------------------------------
+    def exits(self, node):
+        return any(x.k in ("break", "continue", "return") for x in walk(node))
+
+    def state_term(self, env):
+        return tuple_term(self.state)
+
+    def seq(self, stmts, tail, env, ind, inloop):
+        """lines of a `do` block; every path ends in `pure (Early.ret/cont state)` (inloop) or returns the tail value (closure)"""
+        out = []
+        env = dict(env)
+        stmts = list(stmts)
+        if tail is not None and tail.k in ("if", "iflet", "match"):
+            stmts.append(N("exprstmt", tail.line, e=tail))
+            tail = None
+        for n, st in enumerate(stmts):
+            rest = stmts[n + 1:]
+            if st.k == "structdef":
+                self.structs[st.name] = [(f, norm(t)) for f, t in st.fields]
+                continue
+            if st.k == "let":
+                if st.pat[0] != "bind" or st.els is not None:
+                    self.err(st, "destructuring `let`")
+                x = st.pat[1]
+                if re.fullmatch(r"tmp\d+|loop_state|item|fuel|r|ic|c", x):
+                    self.err(st, f"identifier {x} clashes with generated names")
+                v, t = self.let_init(st, env, out, ind)
+                out.append(f"{ind}let {mangle(x)} : {self.lt(t)} := {v}")
+                env[x] = t
+                continue
+            if st.k == "assign":
+                if st.place.k != "path" or len(st.place.segs) != 1 or st.place.segs[0] not in env:
+                    self.err(st, "assignment to something other than a local variable")
+                x = st.place.segs[0]
+                v, t = self.xe(st.rhs, env, out, ind)
+                if st.op == "+=" and env[x] == "usize" and t == "usize":
+                    tmp = self.fresh()
+                    out.append(f"{ind}let {tmp} : UInt64 ← IM.liftP (UInt64.checked_add {mangle(x)} {par(v)})")
+                    v = tmp
+                elif st.op != "=":
+                    self.err(st, f"assignment operator `{st.op}`")
+                elif t != env[x] and not (isinstance(t, tuple) and isinstance(env[x], tuple) and t[0] == env[x][0] == "Option"):
+                    self.err(st, f"assignment of {show(t)} to `{x}` : {show(env[x])}")
+                out.append(f"{ind}let {mangle(x)} : {self.lt(env[x])} := {v}")
+                continue
+            if st.k != "exprstmt":
+                self.err(st, f"statement `{st.k}`")
+            e = st.e
+            if e.k == "break":
+                if not inloop or rest:
+                    self.err(e, "`break` outside the loop / not at the end of a block")
+                out.append(f"{ind}pure (Early.ret {self.state_term(env)})")
+                return out
+            if e.k == "continue":
+                if not inloop or rest:
+                    self.err(e, "`continue` outside the loop / not at the end of a block")
+                out.append(f"{ind}pure (Early.cont {self.state_term(env)})")
+                return out
+            if e.k == "debug_assert":
+                self.debug_assert(e, env, out, ind)
+                continue
+            if e.k == "call" and e.fn == ["f"] and len(e.args) == 1 and e.args[0].k == "structlit" and e.args[0].segs[:-1] == ["StatusEvent"] \
+                    and e.args[0].name in STATUS_EVENT:
+                lit = e.args[0]
+                decl = STATUS_EVENT[lit.name]
+                if sorted(f for f, _ in lit.fields) != sorted(f for f, _ in decl):
+                    self.err(e, f"StatusEvent::{lit.name}: fields differ from the declaration")
+                vals = {}
+                for f, v in lit.fields:
+                    a, t = self.xe(v, env, out, ind)
+                    if t != dict(decl)[f]:
+                        self.err(v, f"StatusEvent::{lit.name}.{f}: {show(t)} where {show(dict(decl)[f])} is expected")
+                    vals[f] = a
+                out.append(f"{ind}IM.emit (StatusEvent.{lit.name} " + " ".join(par(vals[f]) for f, _ in decl) + ")")
+                continue
+            if e.k == "if":
+                c, tc = self.xe(e.c, env, out, ind)
+                if tc != "bool":
+                    self.err(e, "non-bool condition")
+                if self.exits(e):
+                    if e.el is not None or not inloop:
+                        self.err(e, "`if` with an exit and an `else` / outside the loop")
+                    th = self.seq(e.th.stmts, e.th.tail, env, ind + "  ", inloop)
+                    if not th or not re.match(r"\s*pure \(Early\.", th[-1]):
+                        self.err(e, "`if` block with an exit that does not end in `break` / `continue`")
+                    out.append(f"{ind}if {c} then do")
+                    out.extend(th)
+                    out.append(f"{ind}else do")
+                    out.extend(self.seq(rest, tail, env, ind + "  ", inloop))
+                    return out
+                self.unit_branch(e, [(f"if {c} then do", e.th, env)], e.el, env, out, ind)
+                continue
+            if e.k == "iflet":
+                if self.exits(e) or e.pat[0] != "some" or e.pat[1][0] != "bind" or e.el is not None:
+                    self.err(e, "`if let` outside the supported subset")
+                v, t = self.xe(e.scrut, env, out, ind)
+                if not (isinstance(t, tuple) and t[0] == "Option"):
+                    self.err(e, "`if let Some(..)` on a non-Option")
+                env2 = dict(env)
+                env2[e.pat[1][1]] = t[1]
+                out.append(f"{ind}match {v} with")
+                out.append(f"{ind}| some {mangle(e.pat[1][1])} => do")
+                self.no_assign(e.th, env)
+                out.extend(self.unit_block(e.th, env2, ind + "  "))
+                out.append(f"{ind}| none => do")
+                out.append(f"{ind}  pure ()")
+                continue
+            if e.k == "match":
+                if rest or tail is not None or not inloop:
+                    self.err(e, "`match` statement that is not the last statement of the loop body")
+                v, t = self.xe(e.scrut, env, out, ind)
+                if not (isinstance(t, tuple) and t[0] == "SResult") or len(e.arms) != 2:
+                    self.err(e, "`match` on something other than a `Result<_, SearchInterrupt>` with two arms")
+                (p1, b1), (p2, b2) = e.arms
+                if not (p1[0] == "ctor" and p1[1] == ["Ok"] and len(p1[2]) == 1 and p1[2][0][0] == "bind"
+                        and p2 == ("ctor", ["Err"], [("path", ["SearchInterrupt"])])):
+                    self.err(e, "arms `Ok(x) => .., Err(SearchInterrupt) => ..` expected")
+                env2 = dict(env)
+                env2[p1[2][0][1]] = t[1]
+                out.append(f"{ind}match {v} with")
+                out.append(f"{ind}| SResult.Ok {mangle(p1[2][0][1])} => do")
+                out.extend(self.seq(b1.stmts, b1.tail, env2, ind + "  ", inloop))
+                out.append(f"{ind}| SResult.Err => do")
+                out.extend(self.seq(b2.stmts, b2.tail, env, ind + "  ", inloop))
+                return out
+            self.err(e, f"expression statement `{e.k}` is outside the supported subset")
+        if inloop:
+            if tail is not None:
+                self.err(tail, "loop body with a value")
+            out.append(f"{ind}pure (Early.cont {self.state_term(env)})")
+            return out
+        if tail is None:
+            self.err(stmts[-1] if stmts else N("x", self.line), "closure body without a value")
+        v, t = self.xe(tail, env, out, ind)
+        out.append(f"{ind}pure {par(v)}")
+        self.tail_ty = t
+        return out
+
+    def no_assign(self, blk, env):
+        for x in walk(blk):
+            if x.k == "assign":
+                self.err(x, "assignment inside a nested `if` / `if let` that does not exit is outside the supported subset")
+
+    def unit_block(self, blk, env, ind):
+        """a block run for its effects only (events); value `()`"""
+        if blk.tail is not None and blk.tail.k not in ("if", "iflet"):
+            self.err(blk, "nested block with a value")
+        stmts = list(blk.stmts) + ([N("exprstmt", blk.tail.line, e=blk.tail)] if blk.tail is not None else [])
+        saved, self.state = self.state, []
+        out = []
+        env = dict(env)
+        for st in stmts:
+            if st.k == "let" and st.pat[0] == "bind" and st.els is None:
+                v, t = self.let_init(st, env, out, ind)
+                out.append(f"{ind}let {mangle(st.pat[1])} : {self.lt(t)} := {v}")
+                env[st.pat[1]] = t
+                continue
+            if st.k == "exprstmt" and st.e.k == "if" and not self.exits(st.e):
+                c, tc = self.xe(st.e.c, env, out, ind)
+                self.unit_branch(st.e, [(f"if {c} then do", st.e.th, env)], st.e.el, env, out, ind)
+                continue
+            if st.k == "exprstmt" and st.e.k == "call" and st.e.fn == ["f"]:
+                o2 = self.seq([st], None, env, ind, False) if False else None
+                sub = IterEm.seq(self, [st, N("exprstmt", st.line, e=N("continue", st.line))], None, env, ind, True)
+                out.extend(sub[:-1])
+                continue
+            self.err(st, f"statement `{st.k}` in a nested effect-only block")
+        out.append(f"{ind}pure ()")
+        self.state = saved
+        return out
+
+    def unit_branch(self, e, heads, el, env, out, ind):
+        if el is not None:
+            self.err(e, "`if .. else ..` statement without an exit is outside the supported subset")
+        self.no_assign(e.th, env)
+        for head, blk, env2 in heads:
+            out.append(f"{ind}{head}")
+            out.extend(self.unit_block(blk, env2, ind + "  "))
+        out.append(f"{ind}else do")
+        out.append(f"{ind}  pure ()")
+
+    def debug_assert(self, e, env, out, ind):
+        b = e.e
+        ok = b.k == "blockexpr" and len(b.b.stmts) == 2 and b.b.tail is not None and b.b.tail.k == "boollit" and b.b.tail.v is True
+        if ok:
+            s1, s2 = b.b.stmts
+            ok = s1.k == "let" and s1.pat[0] == "bind" and s1.init.k == "mcall" and s1.init.name == "clone" and s1.init.recv.k == "path" \
+                and s2.k == "exprstmt" and s2.e.k == "for" and s2.e.pat[0] == "bind" and s2.e.it.k == "mcall" and s2.e.it.name == "iter" \
+                and s2.e.it.recv.k == "path" and len(s2.e.body.stmts) == 1 and s2.e.body.tail is None
+        if ok:
+            g, mv, a = s1.pat[1], s2.e.pat[1], s2.e.body.stmts[0]
+            src, vec = s1.init.recv.segs[0], s2.e.it.recv.segs[0]
+            ok = a.k == "assign" and a.op == "=" and a.place.k == "path" and a.place.segs == [g] and a.rhs.k == "mcall" and a.rhs.name == "expect" \
+                and len(a.rhs.args) == 1 and a.rhs.recv.k == "call" and a.rhs.recv.fn == ["State", "by_performing_move"] and len(a.rhs.recv.args) == 2 \
+                and env.get(src) == "State" and env.get(vec) == ("Vec", "Move")
+        if ok:
+            a1, a2 = a.rhs.recv.args
+            ok = a1.k == "un" and a1.op == "&" and a1.e.k == "path" and a1.e.segs == [g] and a2.k == "path" and a2.segs == [mv]
+        if not ok:
+            self.err(e, "`debug_assert!({ let mut g = s.clone(); for mv in line.iter() { g = State::by_performing_move(&g, mv).expect(..); } true })` expected")
+        t = self.fresh()
+        out.append(f"{ind}let {t} : Bool ← IM.liftP (do")
+        out.append(f"{ind}    let {mangle(g)} : State ← List.foldlM (fun ({mangle(g)} : State) ({mangle(mv)} : Move) => do")
+        out.append(f"{ind}        let r ← State.by_performing_move {mangle(g)} {mangle(mv)}")
+        out.append(f"{ind}        unwrap r) {mangle(src)} (Array.toList {mangle(vec)})")
+        out.append(f"{ind}    pure true)")
+        out.append(f"{ind}IM.liftP (TTPrim.assert {t})")
+
+    def let_init(self, st, env, out, ind):
+        e = st.init
+        # max_thread_count.unwrap_or_else(|| { .. })
+        if e.k == "mcall" and e.name == "unwrap_or_else" and len(e.args) == 1 and e.args[0].k == "closure" and not e.args[0].params:
+            a, t = self.xe(e.recv, env, out, ind)
+            if not (isinstance(t, tuple) and t[0] == "Option"):
+                self.err(e, "`unwrap_or_else` on a non-Option")
+            body = e.args[0].body
+            body = N("blockexpr", body.line, b=body) if body.k == "block" else body
+            o2 = []
+            d, td = self.xe(body, env, o2, ind)
+            if o2 or td != t[1]:
+                self.err(e, "`unwrap_or_else` closure with an effect / of another type")
+            return f"(match {a} with | some v => v | none => {d})", t[1]
+        # (lo..hi).map(|i| ..).collect()
+        if e.k == "mcall" and e.name == "collect" and not e.args and e.recv.k == "mcall" and e.recv.name == "map" and e.recv.recv.k == "paren" \
+                and e.recv.recv.e.k == "range" and not e.recv.recv.e.incl:
+            rg, cl = e.recv.recv.e, e.recv.args[0] if len(e.recv.args) == 1 else None
+            if cl is None or cl.k != "closure" or len(cl.params) != 1 or not isinstance(cl.params[0], str):
+                self.err(e, "`(lo..hi).map(|i| ..).collect()` expected")
+            lo, tlo = self.xe(rg.lo, env, out, ind)
+            hi, thi = self.xe(rg.hi, env, out, ind)
+            if (tlo, thi) != ("usize", "usize") or st.ann != ("Vec", "_"):
+                self.err(e, "range of non-usize / missing `Vec<_>` annotation")
+            env2 = dict(env)
+            env2[cl.params[0]] = "usize"
+            o2 = []
+            v, t = self.xe(cl.body, env2, o2, ind + "    ")
+            tmp = self.fresh()
+            out.append(f"{ind}let {tmp} : {self.lt(('Vec', t))} ← SPrim.range_map_collect (m := IM) {lo} {hi} (fun ({mangle(cl.params[0])} : UInt64) => do")
+            out.extend(o2)
+            out.append(f"{ind}    pure {v})")
+            return tmp, ("Vec", t)
+        # { v.into_par_iter().map(|data| { .. }).collect() }
+        if e.k == "blockexpr" and not e.b.stmts and e.b.tail is not None and e.b.tail.k == "mcall" and e.b.tail.name == "collect" and not e.b.tail.args:
+            m = e.b.tail.recv
+            if not (m.k == "mcall" and m.name == "map" and len(m.args) == 1 and m.args[0].k == "closure" and len(m.args[0].params) == 1
+                    and isinstance(m.args[0].params[0], str) and m.recv.k == "mcall" and m.recv.name == "into_par_iter" and not m.recv.args
+                    and m.args[0].body.k == "block"):
+                self.err(e, "`{ v.into_par_iter().map(|x| { .. }).collect() }` expected")
+            if st.ann != ("Result", ("Vec", "_")):
+                self.err(e, "the result of the parallel map must be annotated `Result<Vec<_>, SearchInterrupt>`")
+            a, t = self.xe(m.recv.recv, env, out, ind)
+            if not (isinstance(t, tuple) and t[0] == "Vec"):
+                self.err(e, "`into_par_iter` of a non-Vec")
+            cl = m.args[0]
+            env2 = {k2: v2 for k2, v2 in env.items()}
+            env2[cl.params[0]] = t[1]
+            saved = self.state
+            self.state = []
+            body = self.seq(cl.body.stmts, cl.body.tail, env2, ind + "    ", False)
+            self.state = saved
+            rt = self.tail_ty
+            if not (isinstance(rt, tuple) and rt[0] == "SResult"):
+                self.err(e, "the worker closure must return a `Result<_, SearchInterrupt>`")
+            tmp = self.fresh()
+            out.append(f"{ind}let {tmp} : {self.lt(('SResult', ('List', rt[1])))} ← SPrim.par_map_collect_result (fun ({mangle(cl.params[0])} : {self.lt(t[1])}) => do")
+            out.extend(body)
+            out.append(f"{ind}    ) (Array.toList {par(a)})")
+            return f"(SResult.map List.toArray {tmp})", ("SResult", ("Vec", rt[1]))
+        # Self::analyze_recursive(..)
+        if e.k == "call" and e.fn == ["Self", "analyze_recursive"]:
+            fi = self.em.fns["analyze_recursive"]
+            if len(e.args) != len(fi.params) or st.ann != ("Result", "Evaluation"):
+                self.err(e, "call of analyze_recursive: number of arguments / missing `Result<Evaluation, SearchInterrupt>` annotation")
+            args, own = [], {}
+            for (p, pt, mode), a in zip(fi.params, e.args):
+                pre = {"ref": "&", "refmut": "&mut", "val": None}[mode]
+                if pre is not None:
+                    if a.k != "un" or a.op != pre:
+                        self.err(a, f"argument for `{p}` must be passed as `{pre}..`")
+                    a = a.e
+                if p in ("token", "transpositions"):
+                    if a.k != "path" or a.segs != [p] or p in env and p != "token":
+                        self.err(a, f"argument for `{p}` must be the loop's own `{p}`")
+                    continue
+                if mode == "refmut":
+                    if a.k != "path" or len(a.segs) != 1 or a.segs[0] not in env or env[a.segs[0]] != pt:
+                        self.err(a, f"argument for `&mut {p}` must be a local of type {show(pt)}")
+                    own[p] = a.segs[0]
+                    if p == "move_buffer":
+                        args.append(mangle(a.segs[0]))
+                    continue
+                v, t = self.xe(a, env, out, ind)
+                if t != pt and not (isinstance(t, tuple) and isinstance(pt, tuple) and t[0] == pt[0] == "Option"):
+                    self.err(a, f"argument for `{p}`: {show(t)} where {show(pt)} is expected")
+                args.append(par(v))
+            if sorted(own) != ["move_buffer", "nodes_searched", "rng"]:
+                self.err(e, "call of analyze_recursive: `&mut` arguments")
+            md = args[[p for p, _, _ in fi.params if p not in ("token", "transpositions", "rng", "nodes_searched")].index("max_depth")]
+            tmp = self.fresh()
+            out.append(f"{ind}let {tmp} : (SResult Evaluation × Wee.Rng.ChaCha8 × Array Move × UInt64) ← IM.call_worker (Searcher.analyze_recursive (SPrim.analyze_fuel {md}) "
+                       + " ".join(a2 if a2 != "token_placeholder" else "token" for a2 in self.with_token(fi, args)) + f") {mangle(own['rng'])} {mangle(own['move_buffer'])} {mangle(own['nodes_searched'])}")
+            out.append(f"{ind}let {mangle(own['rng'])} : Wee.Rng.ChaCha8 := {tmp}.2.1")
+            out.append(f"{ind}let {mangle(own['move_buffer'])} : Array Move := {tmp}.2.2.1")
+            out.append(f"{ind}let {mangle(own['nodes_searched'])} : UInt64 := {tmp}.2.2.2")
+            return f"{tmp}.1", ("SResult", "Evaluation")
+        if e.k == "call" and e.fn == ["Vec", "new"] and not e.args:
+            return "#[]", ("Vec", "Move")
+        v, t = self.xe(e, env, out, ind)
+        if st.ann is not None:
+            want = norm(st.ann)
+            if want != t:
+                self.err(st, f"`let` annotated {show(want)} but the value is {show(t)}")
+        return v, t
+
+    def with_token(self, fi, args):
+        """the Lean argument list of the generated analyze_recursive: its non-cell parameters in order, `token` included"""
+        it = iter(args)
+        res = []
+        for p, t, m in fi.params:
+            if p == "token":
+                res.append("token")
+            elif p in CELLS:
+                continue
+            else:
+                res.append(next(it))
+        return res
+
+    # ---- driver -----------------------------------------------------------------------------------
+    def run(self):
+        f = self.locate()
+        if f.pat[0] != "bind" or f.it.k != "range" or f.it.incl:
+            self.err(f, "`for <var> in lo..hi` expected")
+        var = f.pat[1]
+        env = dict(ITER_ENV)
+        # loop state: the outer variables the body assigns
+        assigned = []
+
+        def scan(node, bound):
+            """assignments to variables that are not declared (by `let` / a closure / a `for` pattern) in an enclosing scope of the body"""
+            if isinstance(node, N):
+                if node.k == "block":
+                    b2 = set(bound)
+                    for st in node.stmts:
+                        scan(st, b2)
+                        if st.k == "let":
+                            b2.update(pat_binders(st.pat, []))
+                    if node.tail is not None:
+                        scan(node.tail, b2)
+                    return
+                if node.k == "closure":
+                    b2 = set(bound)
+                    for q in node.params:
+                        b2.update(q if isinstance(q, tuple) else [q])
+                    scan(node.body, b2)
+                    return
+                if node.k == "for":
+                    scan(node.it, bound)
+                    scan(node.body, set(bound) | set(pat_binders(node.pat, [])))
+                    return
+                if node.k == "assign" and node.place.k == "path" and len(node.place.segs) == 1:
+                    v = node.place.segs[0]
+                    if v not in bound and v not in assigned:
+                        assigned.append(v)
+                for k2, v2 in node.__dict__.items():
+                    if k2 not in ("k", "line", "ty"):
+                        scan(v2, bound)
+            elif isinstance(node, (list, tuple)):
+                for x in node:
+                    if isinstance(x, (N, list, tuple)):
+                        scan(x, bound)
+        scan(f.body, set())
+        for v in assigned:
+            if v not in ITER_ENV:
+                self.err(f, f"the loop assigns `{v}`, which is not a variable of the fragment")
+        # a body-local that shadows a loop-state variable (the worker's own `nodes_searched`) is fine: Rust scoping = Lean scoping
+        self.state = [v for v in ITER_ENV if v in assigned]
+        for v in self.state:
+            if v in ("game_state", "evaluator", "token", "hasher", "state_history", "game_state_hash", "max_thread_count", "max_depth"):
+                self.err(f, f"the loop assigns `{v}`")
+        lo, tlo = self.xe(f.it.lo, env, [], "")
+        hi, thi = self.xe(f.it.hi, env, [], "")
+        if (tlo, thi) != ("usize", "usize"):
+            self.err(f, "range of non-usize")
+        env[var] = "usize"
+        self.ntmp = 0
+        body = self.seq(f.body.stmts, f.body.tail, env, "  ", True)
+        sty = self.lt(("tuple", tuple(ITER_ENV[v] for v in self.state)), True)
+        ro = [v for v in ITER_ENV if v not in self.state and v != "max_depth"]
+        params = " ".join(f"({mangle(v)} : {self.lt(ITER_ENV[v])})" for v in ro) + " (max_num_threads : UInt64)"
+        out = []
+        for sname, fields in self.structs.items():
+            out.append(f"/-- `{SEARCHER}` local `struct {sname}` of `Searcher::{ITER_FN}` -/")
+            out.append(f"structure Searcher.{ITER_FN}.{sname} where")
+            for fn, ft in fields:
+                out.append(f"  f_{fn} : {self.lt(ft)}")
+            out.append("")
+        out.append(f"/-- `{SEARCHER}` `Searcher::{ITER_FN}`: the BODY of `for {var} in {lo}..max_depth` (line {self.line}); loop state "
+                   f"({', '.join(self.state)}); cells: rng, transpositions, token (polls), the calls of `f` -/")
+        out.append(f"def Searcher.{ITER_FN}.iteration {params} (loop_state : {sty}) ({mangle(var)} : UInt64) : IM (Early {sty} {sty}) := do")
+        for n, v in enumerate(self.state):
+            out.append(f"  let {mangle(v)} : {self.lt(ITER_ENV[v])} := {tuple_proj('loop_state', n, len(self.state))}")
+        out.extend(body)
+        out.append("")
+        out.append(f"/-- `{SEARCHER}` `Searcher::{ITER_FN}`: the statement `for {var} in {lo}..max_depth {{ .. }}`; returns the loop state -/")
+        args = " ".join(mangle(v) for v in ro) + " max_num_threads"
+        out.append(f"def Searcher.{ITER_FN}.loop {params} (max_depth : UInt64) (loop_state : {sty}) : IM {sty} := do")
+        out.append(f"  let tmp1 : Early {sty} {sty} ← SPrim.for_range_early (m := IM) (Searcher.{ITER_FN}.iteration {args}) ({hi}.toNat - {lo}.toNat) {lo} loop_state")
+        out.append("  match tmp1 with")
+        out.append("  | Early.ret r => pure r")
+        out.append("  | Early.cont r => pure r")
+        return "\n".join(out)
 
 
 FUEL_MEASURE = {"quiescence_search": ("SPrim.quiescence_fuel", "game_state")}
